@@ -235,7 +235,7 @@ func (e *Enc) Encode() {
 	}
 	// package-level axioms (assumed facts about init-only package variables; listed in the trusted base)
 	for _, ax := range e.cs.Axioms {
-		if fn.Pkg == nil || filepath.Base(fn.Pkg.Pkg.Path()) != ax.Pkg {
+		if fn.Pkg == nil || (filepath.Base(fn.Pkg.Pkg.Path()) != ax.Pkg && shortPkg(fn.Pkg.Pkg.Path()) != ax.Pkg) {
 			continue
 		}
 		env := e.entryEnv()
@@ -1041,7 +1041,16 @@ func (e *Enc) instr(ins ssa.Instruction) {
 		e.define(x.(ssa.Value), o)
 	case *ssa.MakeClosure:
 		o := e.newObj(h)
-		e.define(x, o)
+		v := e.define(x, o)
+		if fn, ok := x.Fn.(*ssa.Function); ok {
+			// identity of a function value: which function it runs and, for a bound method, on which receiver
+			e.assert(implies(e.reach[e.curBlock], app("=", app("fnid", v.T), ilit(globalID("func:"+e.w.closureName(fn))))))
+			if strings.HasSuffix(fn.Name(), "$bound") && len(x.Bindings) == 1 {
+				if rv := e.val(x.Bindings[0]); rv.S == "Ref" {
+					e.assert(implies(e.reach[e.curBlock], app("=", app("fnrecv", v.T), rv.T)))
+				}
+			}
+		}
 	case *ssa.Slice:
 		e.sliceOp(x)
 	case *ssa.Extract:
@@ -1557,6 +1566,14 @@ func (e *Enc) bitop(x *ssa.BinOp, fn string, a, b Val, t types.Type) {
 	switch fn {
 	case "bitand":
 		e.assert(implies(nn, and(app(">=", r.T, "0"), app("<=", r.T, a.T), app("<=", r.T, b.T))))
+		if bits, signed := intBits(t); bits <= 8 && !signed {
+			// byte-sized operands: masking with a single bit (flag tests such as f&shf == shf with shf a power of two)
+			for k := uint(0); k < bits; k++ {
+				p2 := pow2(k).String()
+				e.assert(implies(app("=", b.T, p2), app("=", r.T, app("*", p2, app("mod", app("div", a.T, p2), "2")))))
+				e.assert(implies(app("=", a.T, p2), app("=", r.T, app("*", p2, app("mod", app("div", b.T, p2), "2")))))
+			}
+		}
 	case "bitor":
 		e.assert(implies(nn, and(app(">=", r.T, a.T), app(">=", r.T, b.T), app("<=", r.T, app("+", a.T, b.T)))))
 	case "bitxor":
